@@ -32,6 +32,7 @@ EXPLANATION = (
     "and re-raises, and size counters are committed after the last creating call. R-C20-3: identifier data written with a "
     "fixed narrower integer type is range-guarded. R-C20-4: the importer opens the file read-only and reaches no write "
     "call. Not decided: equality of values after a real round trip.")
+EXPLANATION += (' R-C20-5: the identifier dataset and the value dataset of a variable are parallel arrays and must come from the same table in the same order class. R-C20-6: a value cached on the importer by a method with arguments must be keyed by them (zero instances expected; a built-in positive example is evaluated on every run).')
 ASSUMPTIONS = [
     "h5py semantics: group[name] addresses a child, create_group/create_dataset create it, attrs is a key/value store",
     "string formatting with %s inserts exactly one path component",
